@@ -677,6 +677,25 @@ pub fn exec(out: &mut Out, st: &mut State, line: &str) -> (String, bool) {
                 Err(_) => ("panic".into(), false),
             }
         }
+        "shift" => {
+            // shift <sheet> <remrow|insrow|remcol|inscol> <p> <n>: a structural edit between building and
+            // saving (the row table / indexes the writer depends on must follow the cells). The model of C01
+            // does not follow formula adjustment, so the driver answers `unmodelled` until the next reset;
+            // the implementation-level oracle (stored == reloaded) still decides these cases.
+            let s: usize = a[2].parse().unwrap();
+            let (p, n): (u32, u32) = (a[4].parse().unwrap(), a[5].parse().unwrap());
+            let kind = a[3].to_string();
+            let r = guard(|| {
+                let ws = st.book.get_sheet_mut(&s).unwrap();
+                match kind.as_str() {
+                    "remrow" => ws.remove_row(&p, &n),
+                    "insrow" => ws.insert_new_row(&p, &n),
+                    "remcol" => ws.remove_column_by_index(&p, &n),
+                    _ => ws.insert_new_column_by_index(&p, &n),
+                }
+            });
+            (if r.is_ok() { "unmodelled".to_string() } else { "panic".to_string() }, r.is_ok())
+        }
         "dump" => {
             let r = guard(|| render_dump(&dump_book(&st.book, st.nsheets)));
             (r.unwrap_or("panic".into()), true)
@@ -1005,6 +1024,14 @@ pub fn run(out: &mut Out, tier: Tier, seed: u64, replay: Option<Vec<String>>) {
             let (col, row) = gen_pos(&mut rng);
             for op in gen_cell_ops(&mut rng, out) {
                 do_line(out, &mut st, &format!("c01 op {} {} {} {}", s, col, row, op));
+            }
+        }
+        if b > 0 && b % 5 == 0 {
+            for _ in 0..rng.range(1, 2) {
+                let s = rng.below(n as u64);
+                let kind = *rng.pick(&["remrow", "insrow", "remcol", "inscol"]);
+                do_line(out, &mut st, &format!("c01 shift {} {} {} {}", s, kind, rng.range(1, 6), rng.range(1, 2)));
+                out.count("book.structural-edit-before-save");
             }
         }
         do_line(out, &mut st, "c01 dump");
